@@ -77,7 +77,7 @@ def oracle_hostile(ctx, ops, impl):
             by, regs = w[2], []
         if len(w) > 3 and w[1] == "register" and w[2] == by and i.startswith("OK"):
             regs.append((e4.unhex(w[3]).decode("latin-1"), e4.unhex(w[4]).decode("latin-1") if len(w) > 4 else ""))
-        if len(w) > 2 and w[1] == "stream":
+        if len(w) > 2 and w[1] in ("stream", "spoof"):
             q = i.split(" | ")
             reps = q[0].split("replies=")[1].split(",") if "replies=" in q[0] else []
             codes = []
@@ -94,7 +94,7 @@ def oracle_hostile(ctx, ops, impl):
                     ctx.violation("unknown-reply", "unexpected reply %r" % txt[:60], o + "\n")
             if any(c.startswith("E_") for c in codes[:-1]):
                 ctx.violation("error-not-fatal", "an error reply was not the last reply of the connection", o + "\n")
-            ctx.count_case(w[3][:200], nontrivial=len(codes) > 1 or (len(codes) == 1 and not codes[0].startswith("E_BAD_PROTOCOL")))
+            ctx.count_case(" ".join(w[3:])[:300], nontrivial=len(codes) > 1 or (len(codes) == 1 and not codes[0].startswith("E_BAD_PROTOCOL")))
             if by is not None:
                 nd = [x for x in q if x.startswith("N=")]
                 shown = []
@@ -111,9 +111,19 @@ def oracle_hostile(ctx, ops, impl):
                     bool(nd) and any(x.startswith(by + ":") for x in nd[0][2:].split("},"))
                 lk, le = shown[:2], []
                 if not okb:
-                    ctx.violation("bystander-lost:" + hashlib.sha1(w[3].encode()).hexdigest()[:10],
-                                  "after a hostile connection the well-behaved producer %s is no longer listed "
-                                  "for its topics/channels: %s" % (by, (lk + le + nd)[:3]), "\n".join(e4.history_of(ops, ops.index(o))) + "\n")
+                    # one VIOLATION per kind of loss (the first input of each kind is the replay)
+                    spoofed = any(re.search(r"(=|,)-1:hA:", x) for x in shown + nd)
+                    kind = "listed-under-foreign-address" if spoofed else ("after-spoof" if w[1] == "spoof" else "after-stream")
+                    what = ("the well-behaved producer %s is listed under an address that is not its connection's (a member of "
+                            "an IDENTIFY document chose remote_address / the DB id)" % by) if spoofed else \
+                           ("after a hostile connection the well-behaved producer %s is no longer listed for its "
+                            "topics/channels" % by)
+                    hist = e4.history_of(ops, ops.index(o))
+                    # hostile connections are independent of each other: the bystander's own lines + this input
+                    mini = [h for h in hist[:-1] if h.startswith("conf") or
+                            (len(h.split()) > 2 and h.split()[2] == by and h.split()[1] in ("identify", "register"))]
+                    ctx.violation("bystander-lost:" + kind, what + ": %s" % ((shown + nd)[:3],),
+                                  "\n".join(mini + [hist[-1]]) + "\n")
     ctx.corr["hostile_reply_kinds"] = kinds
 
 
@@ -136,6 +146,33 @@ def oracle_sweep(ctx, ops, impl):
                               "a request answered %d changed the registry: %s" % (code, o), o + "\n")
         prevq = q[1] if len(q) > 1 else None
     ctx.corr["sweep_status_histogram"] = st
+
+
+def liveness(ctx, binp, params=None):
+    """concurrent liveness leg: readers on every read route + TCP peers + admin calls, then probes"""
+    env = {"VERIF_MS": ctx.budget(2000, 8000), "VERIF_READERS": ctx.budget(6, 10), "VERIF_PEERS": ctx.budget(4, 8),
+           "VERIF_DEADLINE_MS": 4000}
+    env.update(params or {})
+    rc, out = e4.run_test(ctx, binp, "TestVerifE4Liveness", env, 120)
+    ok = [l for l in out.splitlines() if l.startswith("LIVENESS-OK")]
+    wedged = [l for l in out.splitlines() if l.startswith("LIVENESS-WEDGED")]
+    mix = [l for l in out.splitlines() if l.startswith("LIVENESS-MIX")]
+    if ok and rc == 0:
+        ctx.corr.setdefault("liveness", []).append(ok[0][:1500])
+        ctx.evaluations += sum(int(x.split("=")[1]) for x in ok[0].split() if "=" in x and x.split("=")[1].isdigit()
+                               and not x.startswith(("readers", "peers", "ms")))
+        return []
+    if wedged or rc == -9:
+        why = wedged[0][len("LIVENESS-WEDGED "):] if wedged else "the liveness run itself hung"
+        replay = "liveness ms=%s readers=%s peers=%s deadline_ms=%s\n# %s\n# %s\n# run: ./check C15 --replay <this file>\n" % (
+            env["VERIF_MS"], env["VERIF_READERS"], env["VERIF_PEERS"], env["VERIF_DEADLINE_MS"], why, (mix[0] if mix else ""))
+        ctx.violation("wedge", "nsqlookupd stopped answering under concurrent reads and registrations: " + why[:300], replay)
+        return []
+    if died(rc, out):
+        ctx.violation("crash:liveness", "nsqlookupd died during the concurrent liveness leg", out[-3000:])
+        return []
+    ctx.log("liveness harness failed (rc=%s):\n%s" % (rc, out[-1500:]))
+    return ["liveness harness exit %s" % rc]
 
 
 def run_replay(ctx, binp, path, label, must_pass_key=None):
@@ -163,16 +200,25 @@ def run(ctx):
         "encoding/json.Unmarshal into PeerInfo is an arbitrary function `decode` (every theorem quantifies over it)",
         "writes of replies succeed (a failing write ends the loop like a fatal error)",
     ]
-    ctx.rule = ("hostile byte streams, each on a fresh TCP connection next to a well-behaved bystander producer: "
+    ctx.rule = ("(liveness leg: readers on every read route + TCP peers + admin calls run concurrently, then every route "
+                "and a fresh IDENTIFY+REGISTER must be answered within a deadline) hostile byte streams, each on a fresh TCP connection next to a well-behaved bystander producer: "
                 "wrong/short magic, unknown and mis-cased commands, argument counts, invalid names (length 65, bad "
                 "characters, '#ephemeral' alone), Unicode white space, long and unterminated lines, IDENTIFY with "
                 "every size class (0, exact, short/long by one, at/over the limit, 2^31-1, negative, truncated) and "
-                "valid/invalid/truncated JSON bodies; plus every HTTP route x method x argument subset. A case = one "
+                "valid/invalid/truncated JSON bodies; well-formed hostile peers whose IDENTIFY document carries extra members "
+                "(remote_address, id, RemoteAddress, peerInfo …) naming the bystander's ip:port and which then REGISTER / "
+                "UNREGISTER the bystander's names; plus every HTTP route x method x argument subset. A case = one "
                 "stream / one request; non-trivial = it got past the magic / was answered 200")
     e4.lean_side(ctx, PROPS, tie=e4.TIE_PROTO, specs=("e4_lookupd", "e4_proto"))
     broken = []
     binp = e4.build_harness(ctx, "e4c15")
-    if binp and ctx.replay_in:
+    first = [l for l in e4.read_lines(ctx.replay_in)[:5]] if ctx.replay_in else []
+    if binp and ctx.replay_in and first and first[0].startswith("liveness"):
+        kv = dict(x.split("=") for x in first[0].split()[1:])
+        broken += liveness(ctx, binp, {"VERIF_MS": kv.get("ms", 2000), "VERIF_READERS": kv.get("readers", 6),
+                                       "VERIF_PEERS": kv.get("peers", 4), "VERIF_DEADLINE_MS": kv.get("deadline_ms", 4000)})
+        print("liveness: %s" % (ctx.corr.get("liveness") or "WEDGED"))
+    elif binp and ctx.replay_in:
         broken += run_replay(ctx, binp, os.path.abspath(ctx.replay_in), "replay")
         ml = e4.model_lines(ctx, os.path.join(ctx.work, "replay.ops"))
         for k, l in enumerate(e4.read_lines(os.path.join(ctx.work, "replay.impl"))):
@@ -206,6 +252,8 @@ def run(ctx):
             if s == 0:
                 for k in (5, len(ops) // 2):
                     ctx.add_sample({"op": ops[k][:300], "impl": impl[k][:300]})
+        # 2b. concurrent liveness ("stop it answering others")
+        broken += liveness(ctx, binp)
         # 3. HTTP sweep (in-process router; thorough: also over real HTTP, all value classes)
         sweeps = [{}] if not ctx.thorough() else [{"VERIF_FULL": "1"}, {"VERIF_REALHTTP": "1"}]
         for env in sweeps:
